@@ -89,7 +89,9 @@ struct Registry {
 
 fn run_shared(seed: u64) {
     let programs = gen_programs(seed);
-    eprintln!("programs: {:?}", programs);
+    if std::env::args().any(|a| a == "--print") {
+        eprintln!("programs: {:?}", programs);
+    }
     let reg: Arc<Mutex<Registry>> = Arc::new(Mutex::new(Registry::default()));
     let mut handles = Vec::new();
     for (tid, ops) in programs.into_iter().enumerate() {
